@@ -95,6 +95,9 @@ def run_shard(shard_prop, bins, workdir, tier):
             cases.append((i, 'default', ['minify %s 0' % hx(p)]))
             meta[i] = (p, None, None)
         base = len(cases)
+        cases.append((base, 'default', ['minify ~ 0']))     # NULL string
+        meta[base] = (b'', None, None)
+        base += 1
         # directed value cases (valid JSON): strings ending in an escaped backslash next to strings with spaces
         directed = [([b'[', b'"a\\\\"', b',', b'"b c"', b']'], None), ([b'{', b'"k\\\\"', b':', b'"v  w"', b'}'], None), ([b'"\\\\"'], None),
                     ([b'[', b'"\\\\\\\\"', b',', b'" "', b',', b'"\\\\\\""', b',', b'"  "', b']'], None), ([b'"/*"', ], None), ([b'[', b'"//"', b',', b'"*/ "', b']'], None)]
